@@ -939,9 +939,11 @@ def run(chk):
                        "resolved base/uses/owner/target references) parsed by textX with the FQN provider; per tree the provider is called directly from the root, the "
                        "deepest objects and random objects with every 1-2 part name over the names present, 3-part names, existing long paths, names obtained by walking parent and "
                        "reference attributes, malformed texts, against varying target classes; plus end-to-end parses with one reference replaced by a probe name. "
-                       "non-trivial = name with >= 2 parts or resolved from an ancestor scope; distinct by (text, referrer, name, class)")
+                       "Also: several-file models (grammar D with imports; FQNImportURI, importAs aliases, FQNGlobalRepo): parsed references and direct calls; a custom scope_redirection_logic (owner class stands in for its package); "
+                       "plain Python object graphs hung into parsed models; exhaustive small trees (<= 2 objects quick, <= 4 thorough, names a/b, all dotted names <= 3 parts). "
+                       "non-trivial = name with >= 2 parts or resolved from an ancestor scope / another model / through a stand-in; distinct by (text, referrer, name, class)")
     chk.assumptions += ["translator fqn_tr.py: the attribute filter of find_obj is translated; the remaining statements of FQN.__call__ are compared with the transcribed shape (fail closed)",
-                        "scope_redirection_logic is None (FQN() default); Postponed results cannot occur then",
+                        "several files: the content and order of local_models is observed (dumped by the runner), not derived; redirection callbacks used: importAs (loaded models) and owner class of a package; none returns Postponed",
                         "object tables are dumped through __dict__, type(obj)._tx_attrs and callable() by tools/impl/c10.py",
                         "textx_isinstance is an oracle (conf) in the model; its table is read from the implementation per case"]
     # smallest inputs first: the replay files then show the simplest failing model
